@@ -137,4 +137,16 @@ func VerifC04Oidc() {
 	} else {
 		zzverif.Assert(err == nil, "C04.oidc.workconn-scope-off")
 	}
+	// the same token presented again after it stopped being valid (expired, revoked): a token is
+	// checked every time it is presented, an earlier success is no licence
+	if okWant {
+		ver.fail = true
+		if hb {
+			zzverif.Assert(a.VerifyPing(&msg.Ping{PrivilegeKey: "t"}) != nil, "C04.oidc.token-that-stopped-being-valid-is-refused-on-a-heartbeat")
+			zzverif.Reach("C04.oidc.expired-later")
+		}
+		if wc {
+			zzverif.Assert(a.VerifyNewWorkConn(&msg.NewWorkConn{PrivilegeKey: "t"}) != nil, "C04.oidc.token-that-stopped-being-valid-is-refused-on-a-work-connection")
+		}
+	}
 }
